@@ -494,8 +494,10 @@ func Solve(dir, name, query string, timeoutS int, all bool, seed int) SolveResul
 			}
 			start := time.Now()
 			argv := sp.args(file, timeoutS)
-			full := append([]string{fmt.Sprintf("%d", timeoutS+2)}, argv...)
-			cmd := exec.CommandContext(ctx, "timeout", full...)
+			// hard wall-clock kill on top of the solver's own limit
+			cctx, ccancel := context.WithTimeout(ctx, time.Duration(timeoutS+2)*time.Second)
+			defer ccancel()
+			cmd := exec.CommandContext(cctx, argv[0], argv[1:]...)
 			var out bytes.Buffer
 			cmd.Stdout = &out
 			cmd.Stderr = &out
@@ -552,6 +554,8 @@ func Solve(dir, name, query string, timeoutS int, all bool, seed int) SolveResul
 				cancel()
 				return final
 			}
+			// thorough: give the other solvers a short grace period to agree or disagree
+			time.AfterFunc(5*time.Second, cancel)
 		}
 	}
 	if final.Status != "sat" && final.Status != "unsat" {
